@@ -360,16 +360,19 @@ def writer_models(concrete_encoders):
     def csv_from(ctx, args, callee):
         return Agg([args[0]], 'csv::Writer')
 
-    @reg(r'^csv::Writer::write_record$', 'csv::Writer::write_record: the record reaches the underlying writer as one RFC 4180 line (Python csv, minimal quoting, \\n) / one token')
+    @reg(r'^csv::Writer::write_record$', 'csv::Writer::write_record: the record reaches the underlying writer as one RFC 4180 line (quoted when necessary: delimiter, quote, CR, LF; \\n) / one token')
     def csv_write(ctx, args, callee):
         w = ctx.deref(args[0])
         recs = ctx.deref(args[1])
         vals = [c.v for c in recs.items]
         if concrete_encoders:
-            buf = io.StringIO()
-            csv.writer(buf, lineterminator='\n', quoting=csv.QUOTE_MINIMAL).writerow([text_of(v) for v in vals])
-            text = buf.getvalue()
-            if len(vals) == 1 and text_of(vals[0]) == '':
+            # the csv crate's default (QuoteStyle::Necessary): a field is quoted when it holds the delimiter, a quote, CR or LF (or is
+            # the only, empty, field of its record); quotes inside are doubled; records end in LF
+            def field(t):
+                return '"' + t.replace('"', '""') + '"' if any(ch in t for ch in ',"\r\n') else t
+            texts = [text_of(v) for v in vals]
+            text = ','.join(field(t) for t in texts) + '\n'
+            if len(vals) == 1 and texts[0] == '':
                 text = '""\n'
             piece = Str(text)
             parts = [piece]
